@@ -16,9 +16,17 @@ PKG_DOCS = {
     # two packages that define the same type name, only one of them as an implementer of abs1
     "zcvpkg_x": [TYPE("dupt", [K("k1")], implements="abs1")],
     "zcvpkg_y": [TYPE("dupt", [K("k1")])],
+    # implements an abstract type that the importing schema took over from a library schema (<import src>)
+    "zcvpkg_l2": [TYPE("pl2", [K("k1")], implements="labs")],
+}
+# library schemas named by <import src="package:<pkg>:<file>"/>: (package, file) -> type documents
+LIB_DOCS = {
+    ("zcvpkg_lib", "lib.xml"): [schemas.ABS("labs"),
+                                TYPE("lbox", [schemas.MSEC("labs", "*", "items"), schemas.SEC("labs", "fixed")]),
+                                TYPE("l1", [K("k1")], implements="labs")],
 }
 # types the importing schema must define for a package to make sense (used to expand the component)
-CONTEXT = [schemas.ABS("abs1"), schemas.ABS("abs2"),
+CONTEXT = [schemas.ABS("abs1"), schemas.ABS("abs2"), schemas.ABS("labs"),
            TYPE("wbase", [K("k0"), K("+", attribute="w", defaults=[("Alpha", "av"), ("beta", "bv")])])]
 NOT_OK = ["zcvpkg_nocomp", "zcvmod_plain", "zcvpkg_missing", "zcvpkg_a."]
 
@@ -36,6 +44,12 @@ def build(root):
         open(os.path.join(d, "__init__.py"), "w").close()
         with open(os.path.join(d, "component.xml"), "w") as f:
             f.write(component_xml(types))
+    for (name, fn), types in LIB_DOCS.items():
+        d = os.path.join(root, name)
+        os.makedirs(d, exist_ok=True)
+        open(os.path.join(d, "__init__.py"), "w").close()
+        with open(os.path.join(d, fn), "w") as f:
+            f.write(schemas.to_xml({"types": types, "children": []}))
     d = os.path.join(root, "zcvpkg_nocomp")
     os.makedirs(d, exist_ok=True)
     open(os.path.join(d, "__init__.py"), "w").close()
